@@ -6,10 +6,10 @@ SPEC = {
     'groups': [{
         'name': 'reg', 'wrapper': 'w02.cpp', 'harness': 'h02.c', 'config': {'heapcheck': False},
         'obligations':
-            [{'fn': 'harness_selection_%d_%d' % (a, b), 'unwind': 6, 'timeout': 900, 'bounds': '2 tests (normal/ignored symbolic), group and name strings <= 2 bytes full byte range, %d group filter(s) and %d name filter(s) each <= 2 bytes with symbolic strict/invert flags, run-ignored symbolic' % (a, b)} for a in range(3) for b in range(3)] +
-            [{'fn': 'harness_selection_%d_%d' % (a, b), 'unwind': 6, 'timeout': 1200, 'bounds': '2 tests, %d group and %d name filters (lists longer than two), strings <= 2 bytes, flags symbolic' % (a, b)} for a, b in ((3, 0), (0, 3))] +
-            [{'fn': 'harness_selection_3_3', 'unwind': 6, 'timeout': 3600, 'tier': 'thorough', 'bounds': '2 tests, 3 group and 3 name filters'}] +
-            [{'fn': 'harness_selection_%d_%d' % (a, b), 'unwind': 6, 'timeout': 3600, 'defines': ['-DNT=3'], 'tier': 'thorough', 'bounds': 'as above with 3 tests; %d group / %d name filters' % (a, b)} for a in range(3) for b in range(3)] + [
+            [{'fn': 'harness_selection_%d_%d' % (a, b), 'unwind': 8, 'timeout': 900, 'bounds': '2 tests (normal/ignored symbolic), group and name strings <= 2 bytes full byte range, %d group filter(s) and %d name filter(s) each <= 2 bytes with symbolic strict/invert flags, run-ignored symbolic' % (a, b)} for a in range(3) for b in range(3)] +
+            [{'fn': 'harness_selection_%d_%d' % (a, b), 'unwind': 8, 'timeout': 1200, 'bounds': '2 tests, %d group and %d name filters (lists longer than two), strings <= 2 bytes, flags symbolic' % (a, b)} for a, b in ((3, 0), (0, 3))] +
+            [{'fn': 'harness_selection_3_3', 'unwind': 8, 'timeout': 3600, 'tier': 'thorough', 'bounds': '2 tests, 3 group and 3 name filters'}] +
+            [{'fn': 'harness_selection_%d_%d' % (a, b), 'unwind': 8, 'timeout': 3600, 'defines': ['-DNT=3'], 'tier': 'thorough', 'bounds': 'as above with 3 tests; %d group / %d name filters' % (a, b)} for a in range(3) for b in range(3)] + [
             {'fn': 'harness_permutation', 'unwind': 8, 'timeout': 600, 'defines': ['-DNT=4'], 'bounds': '4 tests; shuffle with arbitrary seed and arbitrary rand() results, reverse, reverse+shuffle'},
             {'fn': 'harness_permutation', 'unwind': 8, 'timeout': 3600, 'defines': ['-DNT=5'], 'tier': 'thorough', 'bounds': '5 tests'},
         ],
